@@ -787,6 +787,19 @@ def argument_other_array_type(prog, rng):
     return put(prog, path, ("var", ("name", v))), "ArgumentsTypeMismatch", ("expr", path)
 
 
+def shadowed_int(prog, rng):
+    """scoping of the predefined type name: a local variable named `int` hides the type `int` for the rest of the
+    procedure (local declarations hide global ones, and `int` is a global name like any other), so a later
+    `var v: int` uses a variable as a type"""
+    di = ensure_proc(prog, rng)
+    if "int" in locals_of(prog, di):
+        return None
+    v = fresh(prog, rng)
+    n = len(prog[di][3])
+    prog = put(prog, (di, 3), list(prog[di][3]) + [("int", ("named", "int")), (v, ("named", "int"))])
+    return prog, "NotAType", ("texpr", (di, 3, n + 1, 1))
+
+
 # rule probes beyond the 27 one-message-one-rule injectors (reported separately by semtest.py)
 PROBES = [negated_boolean]
 
@@ -803,6 +816,10 @@ INJECTORS = [
 
 # all semantic/declaration single faults, including the two about unary minus and name equivalence of array types
 ALL_INJECTORS = INJECTORS + [negated_boolean, negated_boolean_operand, argument_other_array_type]
+
+
+# single faults whose diagnosis is a known finding (known_findings.jsonl); class predicate = the injector itself
+KNOWN_FINDING_INJECTORS = {"C03-int-not-hidden": shadowed_int}
 
 
 def inject_full(prog, rng, injector=None):
